@@ -21,6 +21,7 @@ type c05Oracle struct {
 	lastL    isaac.LastPoint
 	sameL    int
 	cleans   int
+	prevSeq  int64 // event seq at the start of the previous harness clean-up
 }
 
 func newC05Oracle(r *simkit.Run, s *bbState) *c05Oracle {
@@ -116,6 +117,7 @@ func (o *c05Oracle) check() {
 // harnessClean is a clean-up cycle at a point of the harness's choosing (control task).
 func (o *c05Oracle) harnessClean() {
 	box := o.s.box
+	startSeq := o.r.Seq()
 	L := box.LastPoint()
 
 	// what is below the last point before this cycle
@@ -161,14 +163,33 @@ func (o *c05Oracle) harnessClean() {
 			continue
 		}
 
+		// a Vote call that passed the old-ballot test before the last point moved makes a new record for the point
+		// when it goes on; what the box answers then is that record, not the released one
+		if o.s.votedSince(key, startSeq) {
+			o.r.Probe("unlinked_point_has_vote_in_flight")
+			o.r.Event("clean: a vote for " + key + " was under way, its answers are not judged")
+
+			continue
+		}
+
+		sfs := box.Voted(p, addrs)
+		_, found, err := box.MissingNodes(p)
+
+		if o.s.votedSince(key, startSeq) {
+			o.r.Probe("unlinked_point_has_vote_in_flight")
+			o.r.Event("clean: a vote for " + key + " was under way, its answers are not judged")
+
+			continue
+		}
+
 		o.r.Checked()
 		o.r.Probe("unlinked_point_queried")
 
-		if sfs := box.Voted(p, addrs); len(sfs) > 0 {
+		if len(sfs) > 0 {
 			o.r.Fail("released-record-still-consulted", "voted-answers-for-unlinked-point", "the record of %s was taken out of the record map by the clean-up, but Voted(%s) still returns %d sign facts", p, p, len(sfs))
 		}
 
-		if _, found, err := box.MissingNodes(p); err == nil && found {
+		if err == nil && found {
 			o.r.Fail("released-record-still-consulted", "missing-nodes-answers-for-unlinked-point", "the record of %s was taken out of the record map by the clean-up, but MissingNodes(%s) still finds it", p, p)
 		}
 	}
@@ -176,9 +197,13 @@ func (o *c05Oracle) harnessClean() {
 	if L.IsZero() || !(L.StagePoint.Equal(o.lastL.StagePoint) && L.IsMajority() == o.lastL.IsMajority()) {
 		o.lastL = L
 		o.sameL = 1
+		o.prevSeq = startSeq
 
 		return
 	}
+
+	prevSeq := o.prevSeq
+	o.prevSeq = startSeq
 
 	o.sameL++
 	if o.sameL < 2 {
@@ -195,6 +220,15 @@ func (o *c05Oracle) harnessClean() {
 			}
 
 			if !p.IsZero() && p.Compare(L.StagePoint) < 0 {
+				// a record made by a Vote call that was under way while these clean-ups ran (it passed the old-ballot
+				// test before the last point moved) is released by a later clean-up
+				if o.s.votedSince(rec.Key, prevSeq) {
+					o.r.Probe("record_below_last_point_made_by_vote_in_flight")
+					o.r.Event("clean: the record " + rec.Key + " below the last point was made by a vote under way during the clean-ups")
+
+					continue
+				}
+
 				sig := "normal-record"
 				if strings.HasPrefix(rec.Key, "sf-") {
 					sig = "suffrage-confirm-record"
